@@ -341,8 +341,21 @@ def search(ctx):
 
 
 def replay(ctx, data):
+    """the search is deterministic in the seed: it is run again on /repo as it is now (with the enlarged budget if a
+    proof or correspondence had broken in the recorded run) and the kinds of failing input are compared"""
+    import vlib
     for f in data.get("fails", []):
-        print(f["kind"], f["detail"][:400], f["data"])
+        print("recorded:", f["kind"], f["detail"][:300], f["data"])
     for b in data.get("broken", []):
-        print("broken:", b["what"])
-    return 1 if data.get("fails") else 0
+        print("recorded broken:", b["what"])
+    if not data.get("fails"):
+        return 0
+    c2 = vlib.Ctx("C07", ctx.tier, data.get("seed", 1))
+    c2.brokens = list(data.get("broken", []))
+    search(c2)
+    want = sorted(set(f["kind"] for f in data["fails"]))
+    again = sorted(set(f["kind"] for f in c2.fails))
+    for f in c2.fails[:6]:
+        print("now:", f["kind"], f["detail"][:300])
+    print("recorded kinds of failing input:", want, " found again now:", again)
+    return 1 if set(want) & set(again) else 0
